@@ -636,6 +636,14 @@ func (e *specEnv) callSpec(s *SCall) Term {
 				r.GoT = gt
 				return r
 			}
+			// a function of the repository that this unit does not call (any more): take the sort from its signature, so
+			// that the clause is evaluated (and fails as an obligation) instead of failing to generate
+			if gt := x.traceKeyType(key, j, s.Fn == "callret"); gt != nil {
+				x.regComp(comp, x.U.arraySort(SInt, x.U.SortOf(gt)))
+				r := Select(x.get(e.cur, comp), i)
+				r.GoT = gt
+				return r
+			}
 			e.fail("no recorded calls for %s (position %d); give the sort as 4th argument", key, j)
 		}
 		r := Select(x.get(e.cur, comp), i)
@@ -908,4 +916,38 @@ func (e *specEnv) topExists(s SExpr, depth int) (*SQuant, *specEnv) {
 		}
 	}
 	return nil, nil
+}
+
+// traceKeyType finds the Go type of argument j (0 = receiver for methods) or result j of the repository function that a
+// trace key like "scope.runInitializers" or "graph.DependencyGraph.DetectCycles" names.
+func (x *Unit) traceKeyType(key string, j int, ret bool) types.Type {
+	name := key
+	for _, pk := range x.P.Pkgs {
+		if strings.HasPrefix(key, pk.Name+".") {
+			name = strings.TrimPrefix(key, pk.Name+".")
+		}
+	}
+	for k, u := range x.P.Units {
+		if u.Obj == nil || !strings.HasSuffix(k, "::"+name) {
+			continue
+		}
+		sig := u.Sig
+		if ret {
+			if j < sig.Results().Len() {
+				return sig.Results().At(j).Type()
+			}
+			return nil
+		}
+		if sig.Recv() != nil {
+			if j == 0 {
+				return sig.Recv().Type()
+			}
+			j--
+		}
+		if j < sig.Params().Len() {
+			return sig.Params().At(j).Type()
+		}
+		return nil
+	}
+	return nil
 }
